@@ -2,6 +2,7 @@
    bool, option, list, prod, unit, sumbool map to OCaml's; N / positive / nat stay inductive. *)
 From Coq Require Import NArith.
 From RsM Require Import Model.Lifecycle Model.LifecycleSpec.
+(* -- *)
 Require Import ExtrOcamlBasic.
 Extraction Language OCaml.
 Extraction "model.ml"
